@@ -1,10 +1,17 @@
 import OpdaModel.Num
 import OpdaModel.Quadratic
+import OpdaModel.FloatSpecial
+/-!
+The `Float` instance of the operations class: the executable reading of the polymorphic models.
+`pow`, `exp`, `log` are the C library's; `logGamma` is `Opda.Special.logGammaF`.  The normal
+distribution functions are only used by models that do not go through this class (the noisy class has
+its own `Float` stack in `NoisyFloat.lean`); they are given by a plain series so that the instance is
+total, and no check relies on them.
+-/
 namespace Opda
 
-/-- erf by W. J. Cody-style rational approximations would go here; probe uses a series/cf placeholder -/
+/-- erf by its Taylor series (adequate for |x| ≤ 3; not used by any check) -/
 def erfSeries (x : Float) : Float := Id.run do
-  -- Taylor series, adequate for |x| ≤ 3 in this probe
   let mut term := x
   let mut sum := x
   for k in [1:60] do
@@ -21,14 +28,38 @@ instance : Num Float where
   pow := Float.pow
   exp := Float.exp
   log := Float.log
-  logGamma := fun _ => 0.0
+  logGamma := Special.logGammaF
   normalCdf := fun x => 0.5 * (1.0 + erfSeries (x / Float.sqrt 2.0))
   normalPdf := fun x => 0.3989422804014327 * Float.exp (-0.5 * x * x)
-  normalPpf := fun _ => 0.0
+  normalPpf := fun _ => 0.0 / 0.0
+
+/-- a second `Float` reading of the same class in which every transcendental result is nudged by a
+pseudo-random number of ulps in `[-ulps, ulps]` (DESIGN §1.2): evaluating the *same polymorphic term*
+at this instance measures how strongly the term amplifies a last-place difference between two C
+libraries, which is what the comparator's allowance is made of. -/
+def nudgeF (seed ulps : Nat) (x : Float) : Float :=
+  if ulps == 0 || x.isNaN || x.isInf || x == 0.0 then x else
+  let b := x.toBits.toNat
+  -- seed 0: always +ulps; seed 1: always −ulps (full range for a single call); otherwise pseudo-random
+  -- in [−ulps, ulps] (so that the errors of several calls do not cancel systematically)
+  if seed == 0 then Float.ofBits (UInt64.ofNat (b + ulps))
+  else if seed == 1 then Float.ofBits (UInt64.ofNat (b - ulps))
+  else
+    let h := (b * 6364136223846793005 + seed * 1442695040888963407 + 12345) % 18446744073709551616
+    let k := (h / 65536) % (2 * ulps + 1)
+    Float.ofBits (UInt64.ofNat (b + k - ulps))
+
+@[instance_reducible] def jitterNum (seed ulps : Nat) : Num Float where
+  ofNat := Float.ofNat
+  decLt := fun a b => Float.decLt a b
+  decLe := fun a b => Float.decLe a b
+  eq := fun a b => a == b
+  pow := fun x y => nudgeF seed ulps (Float.pow x y)
+  exp := fun x => nudgeF seed ulps (Float.exp x)
+  log := fun x => nudgeF seed ulps (Float.log x)
+  logGamma := fun x => nudgeF seed ulps (Special.logGammaF x)
+  normalCdf := fun x => 0.5 * (1.0 + erfSeries (x / Float.sqrt 2.0))
+  normalPdf := fun x => 0.3989422804014327 * Float.exp (-0.5 * x * x)
+  normalPpf := fun _ => 0.0 / 0.0
+
 end Opda
-open Opda in
-#eval Quad.cdf (α := Float) { a := 0.0, b := 2.0, c := 3, convex := true } 0.7
-open Opda in
-#eval Quad.ppf (α := Float) { a := 0.0, b := 2.0, c := 3, convex := false } 0.3
-open Opda in
-#eval (Num.normalCdf (1.0 : Float))
